@@ -16,12 +16,17 @@
 (*                  fix: with errno == EINTR left over from earlier the    *)
 (*                  loop never ends once the server has closed             *)
 (*   "eof"          read() == 0 ends the read                              *)
+(* WriteMode is the design variant for sending on a connection the server  *)
+(* has already closed (a server that does not read the request):           *)
+(*   "write"     plain write(): EPIPE comes with SIGPIPE, which kills a    *)
+(*               host process that left the signal at its default          *)
+(*   "nosignal"  send(..., MSG_NOSIGNAL): the call fails with EPIPE        *)
 (***************************************************************************)
 EXTENDS Naturals, FiniteSets, TLC, Json
 
 CONSTANTS Replies,     \* set of [id, L (declared length), body (bytes that follow), ok (body begins with "OK")]
           Delays,      \* "none" | "short" (< timeout) | "long" (> timeout) before the server sends
-          EofCheck, EmitEdges
+          EofCheck, WriteMode, EmitEdges
 
 VARIABLES srv,    \* the server's script: [reachable, reply, cut, delay, after, staleErrno]
           pc, got, rc
@@ -33,10 +38,13 @@ Need(r) == 2 + Min(r.L, 256)                     \* bytes the module wants to se
 Total(r) == 2 + r.body
 Cuts(r) == {k \in {0, 1, 2, 3, 4, Need(r) - 1, Need(r), Need(r) + 1, Total(r)} : k <= Total(r)}
 
-Scripts == {[reachable |-> FALSE, reply |-> r, cut |-> 0, delay |-> "none", after |-> "close", staleErrno |-> e]
+Scripts == {[reachable |-> FALSE, reply |-> r, cut |-> 0, delay |-> "none", after |-> "close", staleErrno |-> e, reads |-> TRUE]
                 : r \in {CHOOSE x \in Replies : TRUE}, e \in BOOLEAN}
-      \cup {[reachable |-> TRUE, reply |-> r, cut |-> k, delay |-> d, after |-> a, staleErrno |-> e]
+      \cup {[reachable |-> TRUE, reply |-> r, cut |-> k, delay |-> d, after |-> a, staleErrno |-> e, reads |-> TRUE]
                 : r \in Replies, k \in UNION {Cuts(x) : x \in Replies}, d \in Delays, a \in {"close", "stall"}, e \in BOOLEAN}
+      \* a server that accepts, does not read the request, sends (part of) a negative reply or nothing, and closes
+      \cup {[reachable |-> TRUE, reply |-> r, cut |-> k, delay |-> "none", after |-> "close", staleErrno |-> FALSE, reads |-> FALSE]
+                : r \in {x \in Replies : ~x.ok}, k \in UNION {Cuts(x) : x \in Replies}}
 
 \* what the property demands
 ExpectSuccess(s) == /\ s.reachable /\ s.cut <= Total(s.reply) /\ s.cut >= Need(s.reply)
@@ -49,7 +57,12 @@ Init == /\ srv \in {s \in Scripts : s.cut \in Cuts(s.reply)}
 Connect == /\ pc = "connect"
            /\ IF srv.reachable THEN pc' = "send" /\ UNCHANGED rc ELSE pc' = "done" /\ rc' = "unavail"
            /\ UNCHANGED <<srv, got>>
-Send == pc = "send" /\ pc' = "read" /\ UNCHANGED <<srv, got, rc>>     \* the four parts (socket buffers absorb them)
+Send == /\ pc = "send"            \* the four parts (socket buffers absorb them) ...
+        /\ \/ pc' = "read" /\ UNCHANGED rc
+           \* ... unless the server has closed without reading: a later part hits a closed connection
+           \/ /\ ~srv.reads
+              /\ pc' = "done" /\ rc' = IF WriteMode = "write" THEN "killed" ELSE "unavail"
+        /\ UNCHANGED <<srv, got>>
 
 \* one pass of the read loop: select, then read
 Read ==
@@ -79,4 +92,5 @@ Spec == Init /\ [][Next]_vars /\ WF_vars(Connect \/ Send \/ Compare)
 PamSuccessOnlyOnOK == rc = "success" => ExpectSuccess(srv)
 PamSuccessOnOK     == (pc = "done" /\ ExpectSuccess(srv)) => rc = "success"
 PamTerminates      == <>(pc = "done")
+PamYieldsCode      == rc # "killed"          \* whatever the server does, the host process gets a PAM code
 =============================================================================
